@@ -19,18 +19,22 @@ static void check_matrix(const char* fac, int d, int k, const SU_vector& v, cons
   if (!ok) violation(std::string(fac) + ":matrix-mismatch", J().str("factory", fac).i("d", d).i("index", k).num("err", err).arr("components", comps(v)).done());
 }
 
+// every factory call is preceded by a burst of unrelated library calls (vf::pollute): the factories must not depend on
+// anything an earlier call left behind
+#define F(call) ((dirty ? pollute(d) : (void)0), (call))
 int main(int argc, char** argv) {
   Args a = parse(argc, argv); quiet_gsl();
-  for (int d = 2; d <= 6; d++) {
+  for (int pass = 0; pass < 2; pass++) for (int d = 2; d <= 6; d++) {
+    bool dirty = pass == 1;
     const ref::Basis& B = ref::basis(d);
     // Identity
-    check_matrix("Identity", d, 0, SU_vector::Identity(d), ref::eye(d), true);
+    check_matrix("Identity", d, 0, F(SU_vector::Identity(d)), ref::eye(d), true);
     // Projector
     std::vector<SU_vector> P;
-    for (int i = 0; i < d; i++) { P.push_back(SU_vector::Projector(d, i)); check_matrix("Projector", d, i, P.back(), ref::E(d, i, i), true); }
+    for (int i = 0; i < d; i++) { P.push_back(F(SU_vector::Projector(d, i))); check_matrix("Projector", d, i, P.back(), ref::E(d, i, i), true); }
     // Generator: bit-exact unit vector
     for (int k = 0; k < d * d; k++) {
-      SU_vector g = SU_vector::Generator(d, k);
+      SU_vector g = F(SU_vector::Generator(d, k));
       count("evaluations"); uint64_t h = ref::fnv("Generator", 9); h = ref::fnv(&d, sizeof d, h); h = ref::fnv(&k, sizeof k, h); distinct(h);
       bool ok = (int)g.Dim() == d;
       for (int l = 0; ok && l < d * d; l++) if (!ref::biteq(g[l], l == k ? 1.0 : 0.0)) ok = false;
@@ -44,8 +48,8 @@ int main(int argc, char** argv) {
       for (int i = 0; i < k; i++) { wp(i, i) = 1; wn(d - 1 - i, d - 1 - i) = 1; }
       pos[k] = wp; neg[k] = wn;
       if (k < d) {
-        check_matrix("PosProjector", d, k, SU_vector::PosProjector(d, k), wp, k > 0);
-        check_matrix("NegProjector", d, k, SU_vector::NegProjector(d, k), wn, k > 0);
+        check_matrix("PosProjector", d, k, F(SU_vector::PosProjector(d, k)), wp, k > 0);
+        check_matrix("NegProjector", d, k, F(SU_vector::NegProjector(d, k)), wn, k > 0);
       } else {
         for (int which = 0; which < 2; which++) {
           const char* nm = which ? "NegProjector" : "PosProjector";
